@@ -218,6 +218,11 @@ def _run_sharded(part, units, work, nworkers, tmpdir, per_worker_setup=None, uni
                     # experiment switch: the library under a process that traps floating-point errors
                     import numpy as _np
                     _np.seterr(divide="raise", invalid="raise", over="raise")
+                if os.environ.get("VERIF_WSTRICT"):
+                    # experiment switch: the library under a process that turns warnings into errors
+                    import warnings as _w
+                    _w.simplefilter("error")
+                    _w.filterwarnings("default", message=".*encountered in.*")
                 for pos, i in enumerate(idxs):
                     slots[w] = i
                     rec._shard = (idxs, pos)
@@ -320,7 +325,7 @@ class Ctx(object):
 
     # ------------------------------------------------------------------ E1
     def lattice(self, name, units, one, expand=None, nworkers=None, bounds=None,
-                engine="lattice", fpstrict=False):
+                engine="lattice", fpstrict=False, wstrict=False):
         """enumerate: for unit in units: for case in expand(unit): one(case, rec)
 
         ``units`` is a list (sharded over workers); ``expand`` (default:
@@ -333,6 +338,8 @@ class Ctx(object):
         if self.replay_request is not None:
             if fpstrict:
                 self._fpstrict_pass(name, units, one, expand, nworkers, bounds, engine)
+            if wstrict:
+                self._wstrict_pass(name, units, one, expand, nworkers, bounds, engine)
             return part
         units = list(units)
         part.units = units
@@ -369,7 +376,25 @@ class Ctx(object):
         self._progress(part)
         if fpstrict:
             self._fpstrict_pass(name, units, one, expand, nworkers, bounds, engine)
+        if wstrict:
+            self._wstrict_pass(name, units, one, expand, nworkers, bounds, engine)
         return part
+
+    def _wstrict_pass(self, name, units, one, expand, nworkers, bounds, engine):
+        """the same part once more in a process that turns every warning into an exception (python -W error, a pytest
+        filterwarnings=error): a diagnostic that the library writes to stderr must not become a ``warnings.warn`` that
+        makes a legitimate call raise there.  Only used for parts that are clean under it on the unchanged tree."""
+        import warnings as _w
+
+        def strict_one(case, rec):
+            with _w.catch_warnings():
+                _w.simplefilter("error")
+                # numpy's floating-point warnings ("... encountered in ...") belong to the fp-strict environment
+                _w.filterwarnings("default", message=".*encountered in.*")
+                return one(case, rec)
+        b = dict(bounds or {})
+        b["environment"] = "warnings.simplefilter('error') except numpy floating-point warnings"
+        return self.lattice(name + "/warnings-as-errors", units, strict_one, expand=expand, nworkers=nworkers, bounds=b, engine=engine)
 
     def _fpstrict_pass(self, name, units, one, expand, nworkers, bounds, engine):
         """the same part once more in a process that TRAPS floating-point errors (numpy.seterr divide/invalid/over =
